@@ -10,7 +10,7 @@ use lopdf::{Dictionary, Document, Object, Stream};
 use serde_json::{json, Value};
 use std::collections::BTreeMap;
 use std::sync::Mutex;
-use vharness::refcmap::{self as rc, Chooser, Def, Site, Stored};
+use vharness::refcmap::{self as rc, Chooser, Def, Extra, Form, Site, Stored};
 use vharness::{util, Mode, Run};
 
 type Input = Vec<(u8, u32)>;
@@ -124,11 +124,13 @@ impl Stats {
 // ---------------------------------------------------------------------------------------------
 // inputs and deviation vectors
 
-/// Every mapped code alone and every ordered pair of mapped codes. For CMaps with more than 24
+/// The empty string, every mapped code alone and every ordered pair of mapped codes. For CMaps with more than 24
 /// mapped codes (only the hand-written code-space-edge CMaps) pairs are formed over 8 of them.
 fn inputs_for(defs: &[Def]) -> Vec<Input> {
     let codes = rc::mapped_codes(defs);
-    let mut v: Vec<Input> = codes.iter().map(|c| vec![*c]).collect();
+    // the empty string is a string of mapped codes of every CMap
+    let mut v: Vec<Input> = vec![vec![]];
+    v.extend(codes.iter().map(|c| vec![*c]));
     let pair_codes: Vec<(u8, u32)> = if codes.len() <= 24 {
         codes.clone()
     } else {
@@ -139,6 +141,19 @@ fn inputs_for(defs: &[Def]) -> Vec<Input> {
         for b in &pair_codes {
             v.push(vec![*a, *b]);
         }
+    }
+    v
+}
+
+/// The empty string, every mapped code alone, all mapped codes in ascending and in descending order
+/// (the single-length overlap families: what is looked at is the table, not the segmentation).
+fn inputs_short(defs: &[Def]) -> Vec<Input> {
+    let codes = rc::mapped_codes(defs);
+    let mut v: Vec<Input> = vec![vec![]];
+    v.extend(codes.iter().map(|c| vec![*c]));
+    if codes.len() > 1 {
+        v.push(codes.clone());
+        v.push(codes.iter().rev().cloned().collect());
     }
     v
 }
@@ -205,8 +220,12 @@ fn vectors(sites: &[Site], how: Explore) -> Vec<Vec<usize>> {
 }
 
 fn render_with(defs: &[Def], script: &[usize]) -> (Vec<u8>, Vec<Site>) {
+    render_ex(defs, &Extra::default(), script)
+}
+
+fn render_ex(defs: &[Def], extra: &Extra, script: &[usize]) -> (Vec<u8>, Vec<Site>) {
     let mut ch = Chooser::new(script);
-    let text = rc::render(defs, &mut ch);
+    let text = rc::render_ex(defs, extra, &mut ch);
     if let Err(e) = ch.finish() {
         eprintln!("MACHINERY: choice recorder: {}", e);
         std::process::exit(2);
@@ -282,8 +301,13 @@ fn def_text(d: &Def) -> String {
 }
 
 fn case_json(part: &str, defs: &[Def], sites: &[Site], script: &[usize], text: &[u8], inp: Option<&Input>) -> Value {
+    case_json_ex(part, defs, &Extra::default(), sites, script, text, inp)
+}
+
+fn case_json_ex(part: &str, defs: &[Def], extra: &Extra, sites: &[Site], script: &[usize], text: &[u8], inp: Option<&Input>) -> Value {
     let choices: Vec<Value> = sites.iter().enumerate().map(|(i, s)| json!([s.class, s.n, script.get(i).copied().unwrap_or(0)])).collect();
     json!({
+        "extra": if extra.is_default() { Value::Null } else { extra.to_json() },
         "about": format!("{}{}", defs.iter().map(def_text).collect::<Vec<_>>().join(" | "), inp.map(|i| format!(" ; input {}", input_json(i))).unwrap_or_default()),
         "part": part,
         "defs": defs.iter().map(|d| d.to_json()).collect::<Vec<_>>(),
@@ -295,6 +319,7 @@ fn case_json(part: &str, defs: &[Def], sites: &[Site], script: &[usize], text: &
 
 fn show(o: &Out) -> String {
     match o {
+        Ok(s) if s.is_empty() => "text \"\" (empty)".to_string(),
         Ok(s) => format!("text {:?} (U+{})", s, s.chars().map(|c| format!("{:04X}", c as u32)).collect::<Vec<_>>().join(" U+")),
         Err(e) => e.clone(),
     }
@@ -305,11 +330,13 @@ fn nontrivial(defs: &[Def]) -> bool {
 }
 
 fn check_cmap(run: &Run, part: &'static str, defs: &[Def], how: Explore, st: &mut Stats) {
-    check_cmap_inputs(run, part, defs, how, inputs_for(defs), st)
+    check_cmap_inputs(run, part, defs, &Extra::default(), how, inputs_for(defs), st)
 }
 
 /// `inputs` must contain every code that occurs in a longer input also as a one-code input.
-fn check_cmap_inputs(run: &Run, part: &'static str, defs: &[Def], how: Explore, inputs: Vec<Input>, st: &mut Stats) {
+/// A CMap with `extra.empty_sections` is a liberal spelling in every rendering (rejection is counted,
+/// not failed; accepted and mis-decoded fails).
+fn check_cmap_inputs(run: &Run, part: &'static str, defs: &[Def], extra: &Extra, how: Explore, inputs: Vec<Input>, st: &mut Stats) {
     if !defs.iter().all(|d| d.well_formed()) {
         eprintln!("MACHINERY: generated an ill-formed definition in part {}", part);
         std::process::exit(2);
@@ -322,18 +349,30 @@ fn check_cmap_inputs(run: &Run, part: &'static str, defs: &[Def], how: Explore, 
     if nt {
         st.cmaps_nontrivial += 1;
     }
-    let (text0, sites) = render_with(defs, &[]);
+    let (text0, sites) = render_ex(defs, extra, &[]);
+    let base_liberal = !extra.empty_sections.is_empty();
     // ---- default spelling
-    st.conservative += 1;
     st.dev_hist[0] += 1;
-    if nt {
-        st.cases_nontrivial += 1;
+    if base_liberal {
+        st.liberal += 1;
+    } else {
+        st.conservative += 1;
+        if nt {
+            st.cases_nontrivial += 1;
+        }
     }
+    let base_key = "empty_section=1".to_string();
     // per input: None = correct under the default spelling, Some((observed, finding)) otherwise
     let mut base: Vec<Option<(Out, Option<&'static str>)>> = vec![None; inputs.len()];
     match run_lopdf(&text0, &inputs, st) {
+        Err(_) if base_liberal => {
+            // every other rendering keeps the empty section: counted once, nothing more to decide
+            st.liberal_rejected += 1;
+            st.liberal_by_class.entry(base_key).or_insert([0; 3])[1] += 1;
+            return;
+        }
         Err(e) => {
-            run.fail(None, case_json(part, defs, &sites, &[], &text0, None), &e, "a well-formed CMap in the template spelling is accepted");
+            run.fail(None, case_json_ex(part, defs, extra, &sites, &[], &text0, None), &e, "a well-formed CMap in the template spelling is accepted");
             return;
         }
         Ok(outs) => {
@@ -348,7 +387,7 @@ fn check_cmap_inputs(run: &Run, part: &'static str, defs: &[Def], how: Explore, 
                 }
             }
             for (k, inp) in inputs.iter().enumerate() {
-                if inp.len() > 1 && outs[k].as_ref() != Ok(&expected[k]) {
+                if inp.len() != 1 && outs[k].as_ref() != Ok(&expected[k]) {
                     // predicted from the single-code observations: concatenation, or the first failure
                     let mut predicted: Out = Ok(String::new());
                     let mut finding = None;
@@ -383,11 +422,11 @@ fn check_cmap_inputs(run: &Run, part: &'static str, defs: &[Def], how: Explore, 
                     match f {
                         None if !violated => {
                             violated = true;
-                            run.fail(None, case_json(part, defs, &sites, &[], &text0, Some(&inputs[k])), &show(obs), &show(&Ok(expected[k].clone())));
+                            run.fail(None, case_json_ex(part, defs, extra, &sites, &[], &text0, Some(&inputs[k])), &show(obs), &show(&Ok(expected[k].clone())));
                         }
                         Some(id) if !ids.contains(id) => {
                             ids.push(id);
-                            run.fail(Some(id), case_json(part, defs, &sites, &[], &text0, Some(&inputs[k])), &show(obs), &show(&Ok(expected[k].clone())));
+                            run.fail(Some(id), case_json_ex(part, defs, extra, &sites, &[], &text0, Some(&inputs[k])), &show(obs), &show(&Ok(expected[k].clone())));
                         }
                         _ => {}
                     }
@@ -396,17 +435,26 @@ fn check_cmap_inputs(run: &Run, part: &'static str, defs: &[Def], how: Explore, 
             if !ids.is_empty() {
                 st.cmaps_with_known_finding += 1;
             }
+            if base_liberal {
+                let slot = if base.iter().any(|b| b.is_some()) { 2 } else { 0 };
+                st.liberal_by_class.entry(base_key).or_insert([0; 3])[slot] += 1;
+                if slot == 2 {
+                    st.liberal_misdecoded += 1;
+                } else {
+                    st.liberal_accepted_correct += 1;
+                }
+            }
         }
     }
     // ---- deviations
     for script in vectors(&sites, how).into_iter().skip(1) {
-        let (text, sites2) = render_with(defs, &script);
+        let (text, sites2) = render_ex(defs, extra, &script);
         if sites2 != sites {
             eprintln!("MACHINERY: choice sites changed under deviation {:?}", script);
             std::process::exit(2);
         }
         let dev: Vec<usize> = (0..script.len()).filter(|&i| script[i] != 0).collect();
-        let liberal = dev.iter().any(|&i| sites[i].liberal);
+        let liberal = base_liberal || dev.iter().any(|&i| sites[i].liberal);
         st.dev_hist[dev.len().min(2)] += 1;
         for &i in &dev {
             *st.class_exercised.entry(sites[i].class).or_insert(0) += 1;
@@ -433,7 +481,7 @@ fn check_cmap_inputs(run: &Run, part: &'static str, defs: &[Def], how: Explore, 
                 } else {
                     run.fail(
                         None,
-                        case_json(part, defs, &sites, &script, &text, None),
+                        case_json_ex(part, defs, extra, &sites, &script, &text, None),
                         &e,
                         "a well-formed CMap spelled with conservative white-space / sectioning variations is accepted",
                     );
@@ -460,10 +508,224 @@ fn check_cmap_inputs(run: &Run, part: &'static str, defs: &[Def], how: Explore, 
                         st.liberal_misdecoded += 1;
                         lib_slot(st, 2);
                     }
-                    run.fail(None, case_json(part, defs, &sites, &script, &text, Some(&inputs[k])), &show(&outs[k]), &show(&Ok(expected[k].clone())));
+                    run.fail(None, case_json_ex(part, defs, extra, &sites, &script, &text, Some(&inputs[k])), &show(&outs[k]), &show(&Ok(expected[k].clone())));
                 } else if liberal {
                     st.liberal_accepted_correct += 1;
                     lib_slot(st, 0);
+                }
+            }
+        }
+    }
+}
+
+// ---------------------------------------------------------------------------------------------
+// new families: array targets, degenerate CMaps
+
+/// Array-target CMaps (DESIGN §4 C15 "arrays"): (definitions, part).
+/// * `arrays_profile`: every profile of element lengths {1,2,3} for 2..4 elements x leading units
+///   ascending / equal / descending from 0041 and from 00FE (crossing 00FF/0100), the
+///   array alone and on top of an identity range two codes wider, at its start, middle and end;
+///   2-byte and 1-byte codes.
+/// * `arrays_alphabet`: every array of 2..4 elements over the 12-element alphabet (leading unit
+///   0041..0044 x 1..3 units) and over the 6-element "same lead, last unit counts" alphabet.
+fn array_cmaps() -> Vec<(Vec<Def>, &'static str)> {
+    let mut out = vec![];
+    for (len, base) in [(2u8, 0x0020u32), (1u8, 0x20u32)] {
+        for lead0 in [0x0041u16, 0x00FE] {
+            for ts in rc::profile_arrays(lead0) {
+                let n = ts.len() as u32;
+                out.push((vec![Def::Array { len, lo: base, hi: base + n - 1, ts: ts.clone() }], "arrays_profile"));
+                for at in 0..3u32 {
+                    let bg = Def::Range { len, lo: base, hi: base + n + 1, t: vec![0x0391] };
+                    out.push((vec![bg, Def::Array { len, lo: base + at, hi: base + at + n - 1, ts: ts.clone() }], "arrays_profile"));
+                }
+            }
+        }
+    }
+    for (alphabet, max_n) in [(rc::alphabet_lead(), 4usize), (rc::alphabet_last(), 4)] {
+        for n in 2..=max_n {
+            for idx in 0..(alphabet.len() as u64).pow(n as u32) {
+                let ts = rc::array_at(&alphabet, n, idx);
+                out.push((vec![Def::Array { len: 2, lo: 0x0030, hi: 0x0030 + n as u32 - 1, ts }], "arrays_alphabet"));
+            }
+        }
+    }
+    out
+}
+
+/// CMaps with mappings but unusual section structure: explicit code spaces that also declare code
+/// lengths nothing is mapped in, one codespace section per range, and (liberal) empty sections.
+fn structure_cmaps() -> Vec<(Vec<Def>, Extra)> {
+    let two: Vec<Vec<Def>> = vec![
+        vec![Def::Char { len: 2, code: 0x0041, t: vec![0x0041] }],
+        vec![Def::Char { len: 2, code: 0x0041, t: vec![0x0041] }, Def::Range { len: 2, lo: 0x0042, hi: 0x0044, t: rc::T_LIG.to_vec() }],
+        vec![Def::Range { len: 2, lo: 0x0041, hi: 0x0043, t: vec![0x0061] }, Def::Char { len: 2, code: 0x0042, t: rc::T_EMO.to_vec() }, Def::Char { len: 2, code: 0x0045, t: vec![0x0045] }],
+    ];
+    let one: Vec<Vec<Def>> = vec![
+        vec![Def::Char { len: 1, code: 0x41, t: vec![0x0041] }],
+        vec![Def::Range { len: 1, lo: 0x41, hi: 0x43, t: vec![0x0061] }, Def::Array { len: 1, lo: 0x42, hi: 0x43, ts: vec![rc::T_EMO.to_vec(), vec![0x0062]] }],
+    ];
+    let mut out = vec![];
+    let cs2: Vec<Vec<(u8, u32, u32)>> = vec![
+        vec![(2, 0, 0xFFFF)],
+        vec![(1, 0x80, 0xFF), (2, 0x0000, 0x7FFF)],
+        vec![(2, 0x0000, 0x7FFF), (1, 0x80, 0xFF)],
+        vec![(2, 0x0000, 0x00FF), (2, 0x0100, 0x7FFF), (3, 0x800000, 0x8FFFFF), (4, 0x90000000, 0xFFFFFFFF)],
+    ];
+    let cs1: Vec<Vec<(u8, u32, u32)>> = vec![vec![(1, 0, 0xFF)], vec![(1, 0x00, 0x7F), (2, 0x8000, 0xFFFF)], vec![(2, 0x8000, 0xFFFF), (1, 0x00, 0x7F), (4, 0x80000000, 0xFFFFFFFF)]];
+    for (sets, spaces) in [(&two, &cs2), (&one, &cs1)] {
+        for defs in sets.iter() {
+            for cs in spaces.iter() {
+                for split in [false, true] {
+                    if split && cs.len() == 1 {
+                        continue;
+                    }
+                    out.push((defs.clone(), Extra { codespace: cs.clone(), codespace_split: split, empty_sections: vec![] }));
+                }
+            }
+            // empty sections (liberal): one empty bfchar / bfrange section in front of every definition and at the end
+            for pos in 0..=defs.len() {
+                for is_range in [false, true] {
+                    out.push((defs.clone(), Extra { codespace: vec![], codespace_split: false, empty_sections: vec![(pos, is_range)] }));
+                }
+            }
+            out.push((defs.clone(), Extra { codespace: vec![], codespace_split: false, empty_sections: vec![(0, false), (0, true), (defs.len(), true), (defs.len(), false)] }));
+        }
+    }
+    out
+}
+
+/// CMaps without any mapping: only codespace ranges (one section / one section per range / code
+/// lengths 1..4), and the same with empty mapping sections (liberal).
+fn mappingless_cmaps() -> Vec<Extra> {
+    let spaces: Vec<Vec<(u8, u32, u32)>> = vec![
+        vec![(2, 0, 0xFFFF)],
+        vec![(1, 0, 0xFF)],
+        vec![(1, 0x00, 0x80), (2, 0x8140, 0xFFFC)],
+        vec![(1, 0x00, 0x7F), (2, 0x8000, 0xBFFF), (3, 0xC00000, 0xDFFFFF), (4, 0xE0000000, 0xFFFFFFFF)],
+        vec![(4, 0, 0xFFFFFFFF)],
+        vec![(3, 0, 0xFFFFFF)],
+    ];
+    let mut out = vec![];
+    for cs in &spaces {
+        for split in [false, true] {
+            if split && cs.len() == 1 {
+                continue;
+            }
+            out.push(Extra { codespace: cs.clone(), codespace_split: split, empty_sections: vec![] });
+        }
+        for es in [vec![(0, false)], vec![(0, true)], vec![(0, false), (0, true)]] {
+            out.push(Extra { codespace: cs.clone(), codespace_split: false, empty_sections: es });
+        }
+    }
+    out
+}
+
+/// Inputs for a CMap without mappings: the empty string (a string of mapped codes: must decode to
+/// ""), then every 1-byte code, every 2-byte code and some 3-/4-byte strings (all unmapped: the call
+/// must return, C04's oracle - equality is not demanded for unmapped codes).
+fn mappingless_inputs() -> Vec<Vec<u8>> {
+    let mut v: Vec<Vec<u8>> = vec![vec![]];
+    v.extend((0..=255u8).map(|b| vec![b]));
+    v.extend((0..=65535u32).map(|c| vec![(c >> 8) as u8, c as u8]));
+    for b in [0x00u8, 0x41, 0x80, 0xFF] {
+        for n in 3..=9usize {
+            v.push(vec![b; n]);
+        }
+    }
+    v
+}
+
+fn is_panic(o: &Out) -> bool {
+    matches!(o, Err(e) if e.contains("panic"))
+}
+
+fn run_lopdf_bytes(text: &[u8], inputs: &[Vec<u8>], st: &mut Stats) -> Result<Vec<Out>, String> {
+    let (doc, fid) = font_doc(text);
+    let font = doc.get_dictionary(fid).map_err(|e| format!("harness: {}", e))?;
+    st.enc_calls += 1;
+    let enc = match util::guard(|| font.get_font_encoding(&doc)) {
+        Ok(Ok(e)) => e,
+        Ok(Err(e)) => return Err(format!("get_font_encoding error: {}", e)),
+        Err(p) => return Err(format!("get_font_encoding {}", p)),
+    };
+    if !matches!(enc, lopdf::Encoding::UnicodeMapEncoding(_)) {
+        return Err(format!("get_font_encoding returned {:?}, not a ToUnicode map", enc));
+    }
+    let mut outs = Vec::with_capacity(inputs.len());
+    for bytes in inputs {
+        st.decode_calls += 1;
+        outs.push(match util::guard(|| Document::decode_text(&enc, bytes)) {
+            Ok(Ok(s)) => Ok(s),
+            Ok(Err(e)) => Err(format!("decode_text error: {}", e)),
+            Err(p) => Err(format!("decode_text {}", p)),
+        });
+    }
+    Ok(outs)
+}
+
+fn hex_bytes(b: &[u8]) -> String {
+    b.iter().map(|x| format!("{:02X}", x)).collect()
+}
+
+/// One mapping-less CMap in the default spelling and every single-choice deviation.
+fn check_mappingless(run: &Run, extra: &Extra, inputs: &[Vec<u8>], st: &mut Stats) {
+    let defs: Vec<Def> = vec![];
+    let (_, sites) = render_ex(&defs, extra, &[]);
+    let base_liberal = !extra.empty_sections.is_empty();
+    st.cmaps += 1;
+    *st.by_part.entry("mappingless").or_insert(0) += 1;
+    for script in vectors(&sites, Explore::Upto(1)) {
+        let (text, _) = render_ex(&defs, extra, &script);
+        let dev: Vec<usize> = (0..script.len()).filter(|&i| script[i] != 0).collect();
+        let liberal = base_liberal || dev.iter().any(|&i| sites[i].liberal);
+        st.dev_hist[dev.len().min(2)] += 1;
+        if liberal {
+            st.liberal += 1;
+        } else {
+            st.conservative += 1;
+        }
+        let case = |bytes: Option<&Vec<u8>>| {
+            let mut c = case_json_ex("mappingless", &defs, extra, &sites, &script, &text, None);
+            c["input_bytes"] = json!(bytes.map(|b| hex_bytes(b)));
+            let cs: Vec<String> = extra.codespace.iter().map(|&(l, lo, hi)| format!("<{}> <{}>", rc::hex_code(l, lo, false), rc::hex_code(l, hi, false))).collect();
+            let es: Vec<&str> = extra.empty_sections.iter().map(|&(_, r)| if r { "0 beginbfrange" } else { "0 beginbfchar" }).collect();
+            c["about"] = json!(format!(
+                "no mappings; codespace {}{}{}{}",
+                cs.join(" "),
+                if extra.codespace_split { " (one section per range)" } else { "" },
+                if es.is_empty() { String::new() } else { format!("; empty sections {}", es.join(", ")) },
+                bytes.map(|b| format!(" ; input bytes <{}>", hex_bytes(b))).unwrap_or_default()
+            ));
+            c
+        };
+        // all inputs under the default spelling; the empty string and the 1-byte codes under deviations
+        let inputs = if dev.is_empty() { inputs } else { &inputs[..257.min(inputs.len())] };
+        match run_lopdf_bytes(&text, inputs, st) {
+            Err(e) => {
+                if liberal {
+                    st.liberal_rejected += 1;
+                } else {
+                    run.fail(None, case(None), &e, "a well-formed CMap that has code space ranges and no mappings is accepted");
+                }
+            }
+            Ok(outs) => {
+                let mut bad = false;
+                for (k, bytes) in inputs.iter().enumerate() {
+                    let wrong = if bytes.is_empty() { outs[k] != Ok(String::new()) } else { is_panic(&outs[k]) };
+                    if wrong {
+                        bad = true;
+                        let exp = if bytes.is_empty() { show(&Ok(String::new())) } else { "the call returns (every code is unmapped; no text is demanded)".to_string() };
+                        run.fail(None, case(Some(bytes)), &show(&outs[k]), &exp);
+                        break;
+                    }
+                }
+                if liberal {
+                    if bad {
+                        st.liberal_misdecoded += 1;
+                    } else {
+                        st.liberal_accepted_correct += 1;
+                    }
                 }
             }
         }
@@ -503,7 +765,11 @@ fn sweep(run: &Run, total: &Mutex<Stats>, part: &'static str, menu: &[Def], k: u
             if part == "len134" && defs.iter().all(|d| d.len() == 1) {
                 continue; // already enumerated by seq1 / seq2
             }
-            check_cmap(run, part, &defs, how, &mut st);
+            if matches!(part, "ovl3" | "ovl4" | "ovl3_edges") {
+                check_cmap_inputs(run, part, &defs, &Extra::default(), how, inputs_short(&defs), &mut st);
+            } else {
+                check_cmap(run, part, &defs, how, &mut st);
+            }
         }
         total.lock().unwrap().merge(st);
     });
@@ -718,6 +984,21 @@ fn main() {
          definition and fully merged); long input strings (long_strings: for CMaps with one-unit, two-unit and surrogate-pair targets, \
          n one-unit codes followed by a multi-unit code for every n in 0..=400, runs of multi-unit codes up to 300, and lengths around \
          2^9..2^16, so a multi-unit target starts at every output offset). \
+         Overlap sequences (both tiers): the overlap menu holds every one of the 15 intervals of a 5-code window (2-byte codes 0041..0045) in the forms Id (code -> 0041+position: \
+         bfchar for one code, incrementing bfrange otherwise, so every Id entry gives a code the same value and the same stored offset), the one-code Id entries as bfrange, Sh \
+         (code -> 0061+position), IdArr (the Id values as an array of one-unit elements), Lig (fixed two-unit target) and Mix (array of 1-, 2- and 3-unit elements fixed per position): \
+         80 entries. ovl3 = every sequence of 3 entries (512,000; default spelling and all merges taken; thorough: every combination of merges); ovl4 = every sequence of 4 entries of \
+         the Id/Sh sub-menu (30 entries, 810,000, default spelling; thorough: Id/Sh/Lig, 45 entries, 4,100,625, default spelling and all merges taken); ovl3_edges = every 3-sequence of the Id/Sh menu over the last 5 codes of the 1-, 2-, 3- \
+         and 4-byte code space and over 00FE..0102; ovl_mixed_lengths = every 3-sequence (thorough: also 4) over the Id/Sh menus of the 3-code windows 41..43 (1-byte) and 0041..0043 \
+         (2-byte) in one CMap. So a later definition meets earlier ones with equal ends, inner holes, identical and shifted targets, in all three spellings, across and inside sections. \
+         Array targets: arrays_profile = arrays of 2..4 elements in every profile of element lengths {1,2,3} x leading units ascending/equal/descending from 0041 and 00FE, alone and \
+         on top of an identity range two codes wider at its start, middle and end, 1- and 2-byte codes, with the deviations of the tier; arrays_alphabet = every array of 2..4 elements \
+         over 12 elements (leading unit 0041..0044 x 1..3 units) and over 6 elements sharing the leading unit (last unit counting), default spelling. \
+         Degenerate CMaps: structure = 5 small definition sets x explicit code spaces (one range; ranges of other code lengths nothing is mapped in; one codespace section per range) \
+         and, as liberal spellings, an empty section (0 beginbfchar / 0 beginbfrange) in front of each definition and at the end; mappingless = CMaps with code space ranges only \
+         (6 code spaces, split or not; with empty sections as liberal spellings), default spelling and every single deviation, decoded for the empty string (must be empty), \
+         every 1-byte and every 2-byte code and runs of 3..9 equal bytes (must return). The empty string is an input of every CMap of every part except long_strings; ovl3, ovl4 and ovl3_edges decode the empty string, every mapped code alone and all mapped \
+         codes in ascending and in descending order instead of every ordered pair. \
          Each rendering is parsed with get_font_encoding and every mapped code and every ordered pair of mapped codes is decoded with \
          decode_text (CMaps with more than 24 mapped codes, which only occur in edges: all codes alone, pairs over 8 of them). \
          A case is a (definition sequence, choice vector) with conservative choices only; it is non-trivial when two of its definitions \
@@ -727,6 +1008,8 @@ fn main() {
     );
     run.assume("reference semantics in harness/src/refcmap.rs (last covering definition wins; range offset added to the last UTF-16 unit; array indexed by offset; UTF-16 decoding) is the property's statement");
     run.assume("domain: well-formed CMaps only - array targets have exactly hi-lo+1 elements, incrementing ranges never carry out of the low byte of the last unit, inputs are strings of mapped codes, code sets are prefix-free (1-byte codes 10..17 never start a longer mapped code)");
+    run.assume("a CMap whose only sections are codespace ranges is well-formed and maps nothing: the empty string is its only string of mapped codes and decodes to the empty string; for byte strings of unmapped codes only C04's oracle (the call returns) is applied, on mapping-less CMaps only");
+    run.assume("a mapping section with zero entries (0 beginbfchar endbfchar) is treated as a liberal spelling: rejection is counted (liberal_by_choice empty_section=1), acceptance with a wrong decoding fails");
     run.assume("liberal spellings (line break inside an array / between <lo> and <hi> / before the target, no space between array elements, a section on one line) may be rejected by lopdf's grammar without failing the property; accepting them and decoding wrongly fails it");
     let total = Mutex::new(Stats::default());
     let t = run.thorough;
@@ -770,7 +1053,7 @@ fn main() {
         let mut st = Stats::default();
         st.long_inputs += long[i].1.iter().filter(|x| x.len() > 2).count() as u64;
         st.longest_input = long[i].1.iter().map(|x| x.len() as u64).max().unwrap_or(0);
-        check_cmap_inputs(&run, "long_strings", &long[i].0, Explore::Upto(0), long[i].1.clone(), &mut st);
+        check_cmap_inputs(&run, "long_strings", &long[i].0, &Extra::default(), Explore::Upto(0), long[i].1.clone(), &mut st);
         total.lock().unwrap().merge(st);
     });
     // 4. edges of the code space
@@ -780,6 +1063,55 @@ fn main() {
         check_cmap(&run, "edges", &edges[i], Explore::Upto(0), &mut st);
         total.lock().unwrap().merge(st);
     });
+
+    // 7. overlap sequences: every interval of a 5-code window in forms whose values agree between
+    //    intervals (so that equal stored targets, holes between them and exact re-covering all occur)
+    let ovl = rc::overlap_menu(2, 0x0041, 5, &[Form::Id, Form::IdRange1, Form::Sh, Form::IdArr, Form::Lig, Form::Mix], 0x0041, 0x0061);
+    let ovl_small = rc::overlap_menu(2, 0x0041, 5, &[Form::Id, Form::Sh], 0x0041, 0x0061);
+    let ovl_mid = rc::overlap_menu(2, 0x0041, 5, &[Form::Id, Form::Sh, Form::Lig], 0x0041, 0x0061);
+    sweep(&run, &total, "ovl3", &ovl, 3, if t { Explore::MergeOnly } else { Explore::AllMerged }, None);
+    sweep(&run, &total, "ovl4", if t { &ovl_mid } else { &ovl_small }, 4, if t { Explore::AllMerged } else { Explore::Upto(0) }, None);
+    // the same at the top of the code space of every length and across 00FF/0100 (two forms)
+    for (len, base) in [(1u8, 0xFBu32), (2, 0x00FE), (2, 0xFFFB), (3, 0xFFFFFB), (4, 0xFFFF_FFFB)] {
+        let m = rc::overlap_menu(len, base, 5, &[Form::Id, Form::Sh], 0x0391, 0x03B1);
+        sweep(&run, &total, "ovl3_edges", &m, 3, Explore::AllMerged, None);
+    }
+    // the same numeric window as 1-byte and as 2-byte codes in one CMap (prefix-free: 00 is not a mapped 1-byte code)
+    let mut mix12 = rc::overlap_menu(1, 0x41, 3, &[Form::Id, Form::Sh], 0x0041, 0x0061);
+    mix12.extend(rc::overlap_menu(2, 0x0041, 3, &[Form::Id, Form::Sh], 0x0141, 0x0161));
+    if !rc::prefix_free(&rc::mapped_codes(&mix12)) {
+        eprintln!("MACHINERY: mix12 code set is not prefix-free");
+        std::process::exit(2);
+    }
+    sweep(&run, &total, "ovl_mixed_lengths", &mix12, 3, Explore::AllMerged, None);
+    if t {
+        sweep(&run, &total, "ovl_mixed_lengths", &mix12, 4, Explore::AllMerged, None);
+    }
+    // 8. array targets
+    let arrays = array_cmaps();
+    util::par_for(arrays.len().div_ceil(256), |ci| {
+        let mut st = Stats::default();
+        for (defs, part) in &arrays[ci * 256..(ci * 256 + 256).min(arrays.len())] {
+            check_cmap(&run, part, defs, if *part == "arrays_profile" { Explore::Upto(d) } else { Explore::Upto(0) }, &mut st);
+        }
+        total.lock().unwrap().merge(st);
+    });
+    // 9. degenerate CMaps: unusual section structure with mappings; no mappings at all
+    let structure = structure_cmaps();
+    util::par_for(structure.len(), |i| {
+        let mut st = Stats::default();
+        let (defs, extra) = &structure[i];
+        check_cmap_inputs(&run, "structure", defs, extra, Explore::Upto(1), inputs_for(defs), &mut st);
+        total.lock().unwrap().merge(st);
+    });
+    let mappingless = mappingless_cmaps();
+    let ml_inputs = mappingless_inputs();
+    util::par_for(mappingless.len(), |i| {
+        let mut st = Stats::default();
+        check_mappingless(&run, &mappingless[i], &ml_inputs, &mut st);
+        total.lock().unwrap().merge(st);
+    });
+    run.set("mappingless_inputs_per_cmap", json!(ml_inputs.len()));
 
     // samples: first, a middle one with deviations, the largest
     let sample = |defs: &[Def], script: &[usize]| {
@@ -817,7 +1149,11 @@ fn replay(run: &Run, path: &std::path::Path) -> ! {
     }
     let choices = case["choices"].as_array().cloned().unwrap_or_default();
     let script: Vec<usize> = choices.iter().map(|c| c[2].as_u64().unwrap_or(0) as usize).collect();
-    let (text, sites) = render_with(&defs, &script);
+    let extra = Extra::from_json(&case["extra"]).unwrap_or_else(|e| machinery(format!("bad extra: {}", e)));
+    let (text, sites) = render_ex(&defs, &extra, &script);
+    if choices.len() > sites.len() {
+        machinery(format!("the replay recorded {} choice sites, the rendering has {}", choices.len(), sites.len()));
+    }
     for (i, c) in choices.iter().enumerate() {
         if sites[i].class != c[0].as_str().unwrap_or("") || sites[i].n as u64 != c[1].as_u64().unwrap_or(0) {
             machinery(format!("choice site {} is ({}, {}) but the replay recorded {}", i, sites[i].class, sites[i].n, c));
@@ -829,6 +1165,41 @@ fn replay(run: &Run, path: &std::path::Path) -> ! {
         }
     }
     println!("CMap text:\n{}", String::from_utf8_lossy(&text).replace('\r', "\\r"));
+    // raw input bytes (mapping-less CMaps): "" must decode to "", anything else must return
+    if let Some(hex) = case["input_bytes"].as_str() {
+        if hex.len() % 2 != 0 {
+            machinery(format!("bad input_bytes {}", hex));
+        }
+        let bytes: Vec<u8> = (0..hex.len() / 2).map(|i| u8::from_str_radix(&hex[2 * i..2 * i + 2], 16).unwrap_or_else(|_| machinery(format!("bad input_bytes {}", hex)))).collect();
+        let mut st = Stats::default();
+        let a = run_lopdf_bytes(&text, &[bytes.clone()], &mut st);
+        let b = run_lopdf_bytes(&text, &[bytes.clone()], &mut st);
+        if a != b {
+            machinery(format!("replay not deterministic: {:?} vs {:?}", a, b));
+        }
+        let failed = match a {
+            Err(e) => {
+                println!("observed: {}", e);
+                println!("expected: the CMap is accepted");
+                true
+            }
+            Ok(outs) => {
+                let mapped_only = rc::segment(&defs, &bytes);
+                println!("input bytes <{}>: observed: {}", hex, show(&outs[0]));
+                match mapped_only.and_then(|inp| rc::expected_text(&defs, &inp)) {
+                    Some(exp) => {
+                        println!("input bytes <{}>: expected: {}", hex, show(&Ok(exp.clone())));
+                        outs[0] != Ok(exp)
+                    }
+                    None => {
+                        println!("input bytes <{}>: expected: the call returns (the bytes are not a string of mapped codes)", hex);
+                        is_panic(&outs[0])
+                    }
+                }
+            }
+        };
+        run.finish_replay(failed)
+    }
     let inputs: Vec<Input> = match case["input"].as_array() {
         Some(a) => {
             let mut inp = vec![];
